@@ -92,7 +92,7 @@ def judge_common(ctx, prop, progres, stress_runs, races):
     for name, pr in progres.items():
         prog = pr['prog']
         hc = qe.has_clear(prog)
-        st = {'ok': 0, 'drift': 0, 'stuck': 0}
+        st = {'ok': 0, 'drift': 0, 'stuck': 0, 'skipped': 0}
         for i, r in enumerate(pr['results']):
             st[r['status']] = st.get(r['status'], 0) + 1
             key = ('sched', name, i)
